@@ -64,6 +64,8 @@ package metric
 //@   ensures[C12] !v3TemporalKnown(tm) ==> result != nil
 //@   ensures[C11] tm == nil ==> is(result, ErrNoTemporalMetrics)
 //@   ensures[C11] tm != nil && v3BaseKnown(tm.Base) && !v3TemporalKnown(tm) ==> is(result, ErrInvalidValue)
+//@   ensures[C11] tm != nil && tm.Base.Ver == VUnknown ==> is(result, ErrNotSupportVer)
+//@   ensures[C11] tm != nil && tm.Base.Ver != VUnknown && !v3BaseKnown(tm.Base) ==> is(result, ErrNoBaseMetrics)
 
 // kb is the ghost integer with  Base.Score() === tenth(kb)  (Base.Score's [grid] postcondition); the temporal equation is
 // stated on that already rounded base score, as the specification and C02 demand.
@@ -86,6 +88,9 @@ package metric
 //@   ensures[C12] v3EnvKnown(em) ==> result === nil
 //@   ensures[C12] !v3EnvKnown(em) ==> result != nil
 //@   ensures[C11] em == nil ==> is(result, ErrNoEnvironmentalMetrics)
+//@   ensures[C11] em != nil && em.Temporal.Base.Ver == VUnknown ==> is(result, ErrNotSupportVer)
+//@   ensures[C11] em != nil && em.Temporal.Base.Ver != VUnknown && !v3BaseKnown(em.Temporal.Base) ==> is(result, ErrNoBaseMetrics)
+//@   ensures[C11] em != nil && v3BaseKnown(em.Temporal.Base) && !v3EnvKnown(em) ==> is(result, ErrInvalidValue)
 
 // ki is the ghost integer of the inner Roundup: the first roundUp executed on a path returns tenth(ki) (family inner).
 //@ func (em *Environmental) Score() float64
